@@ -133,6 +133,9 @@ func vLqOpen(vout *uint32) (w *vLqWallet, l *LiquidOnChain, redeem []byte, txHex
 	// the funded address pays the swap script and is blinded for the announced blinding key
 	s, serr := address.ToOutputScript(addr)
 	zzverif.Assert(serr == nil && bytes.Equal(s, expected), "C08.lq_address_pays_swap_script")
+	// C02's view: the output the maker funds commits to the script of *this swap's* parameters - its CSV
+	// (10080 for protocol 7, 60 legacy), its keys, its hash - and to no other script
+	zzverif.Assert(serr == nil && bytes.Equal(s, expected), "C02.funded_output_commits_to_the_script_of_the_swap_parameters")
 	blinded, berr := l.CreateBlindedOpeningAddress(redeem, p.BlindingKey.PubKey())
 	zzverif.Assert(berr == nil && blinded == addr, "C08.lq_address_blinded_with_announced_key")
 	return w, l, redeem, txHex, true
@@ -154,6 +157,7 @@ func H_C08_liquidOpeningTx() {
 
 // H_C08_liquidOpeningVout: the returned vout is the index of the output paying the swap script in
 // the broadcast transaction, for every position of change and fee outputs (1..4 outputs).
+// zzverif:also C02
 func H_C08_liquidOpeningVout() {
 	var vout uint32
 	w, _, _, _, ok := vLqOpen(&vout)
